@@ -121,12 +121,14 @@ impl<'tx> Tx<'tx> {
         let mut freelist = db.inner.freelist.lock()?.clone();
         #[cfg(feature = "verif-hooks")]
         crate::verif::point("begin.freelist_cloned", writable as u64);
-        let mut meta = db.inner.meta()?;
-        debug_assert!(meta.valid());
-        #[cfg(feature = "verif-hooks")]
-        crate::verif::point("begin.meta_read", meta.tx_id);
+        let mut meta;
         {
             let mut open_ro_txs = db.inner.open_ro_txs.lock().unwrap();
+            // The meta page must be read while holding this lock: a read-only transaction has to
+            // be registered under the snapshot it is going to read before any writer can decide
+            // which pages to release, otherwise two commits in between free and reuse its pages.
+            meta = db.inner.meta()?;
+            debug_assert!(meta.valid());
             if writable {
                 meta.tx_id += 1;
                 if open_ro_txs.len() > 0 {
